@@ -44,7 +44,7 @@ def gen_case(rng, tier, idx):
             tr.append({"op": "extra_cols", "names": rng.sample(["Wind", "Rad", "Station", "Tdew", "Year", "Day"], rng.randint(1, 3)),
                        "pos": rng.choice(["front", "back", "mixed"]), "seed": rng.getrandbits(16), "gaps": rng.random() < 0.5})
         elif kind == "reindex":
-            tr.append({"op": "reindex", "kind": rng.choice(["shuffled", "strings", "dates", "offset", "reversed_ints", "day_of_year", "per_year", "constant"]), "seed": rng.getrandbits(16)})
+            tr.append({"op": "reindex", "kind": rng.choice(["shuffled", "strings", "dates", "dates", "dates_near", "dates_near", "offset", "reversed_ints", "day_of_year", "per_year", "constant"]), "seed": rng.getrandbits(16)})
         elif kind == "pad_front":
             tr.append({"op": "pad_front", "n": rng.choice([1, 7, 365, 800]), "seed": rng.getrandbits(16)})
         else:
@@ -89,6 +89,9 @@ def apply_transforms(df, transforms):
                 df.index = pd.Index(["r%05d" % i for i in g.permutation(n)])
             elif t["kind"] == "dates":
                 df.index = pd.DatetimeIndex(df["Date"].values) + pd.Timedelta(days=int(g.integers(-500, 500)))
+            elif t["kind"] == "dates_near":
+                # time stamps a few days off the Date column (logged the evening before, or on arrival of the record)
+                df.index = pd.DatetimeIndex(df["Date"].values) + pd.Timedelta(days=int(g.choice([-3, -1, -1, 1, 2])))
             elif t["kind"] == "offset":
                 df.index = pd.RangeIndex(start=int(g.integers(1, 10000)), stop=None, step=1)[:0].append(pd.Index(np.arange(n) + int(g.integers(1, 10000))))
             elif t["kind"] == "day_of_year":
